@@ -970,9 +970,20 @@ func main() {
 
 	if c.ReplayIn != "" {
 		var rp struct {
-			Ops []Op `json:"ops"`
+			Ops     []Op   `json:"ops"`
+			Stage   string `json:"stage"`
+			Backend string `json:"backend"`
+			Batches int    `json:"batches"`
 		}
 		c.LoadReplay(&rp)
+		if rp.Stage == "atomic-visibility" {
+			d := map[string]db.KeyValueStore{"memory": bk.mem, "pebblev2": bk.p2, "pebble": bk.p1}[rp.Backend]
+			fmt.Printf("replay: %d batches on %s with three concurrent readers (scheduler-dependent: repeated 5 times)\n", rp.Batches, rp.Backend)
+			for i := 0; i < 5 && !c.Reported(rp.Backend+":batch-not-atomic-for-concurrent-readers"); i++ {
+				atomicVisibility(c, rp.Backend, d, rp.Batches)
+			}
+			c.Finish("replay of the atomic-visibility stage")
+		}
 		v, shape, outs := evalCase(or, bk, rp.Ops)
 		fmt.Printf("replay: %s\nshape=%s\n", caseLine(rp.Ops), shape)
 		for k, o := range outs {
@@ -1009,6 +1020,15 @@ func main() {
 	}
 	rec(nil, 5)
 	c.Extra["upper_bound_inputs"] = nub
+
+	// 1b. batches are atomic for concurrent readers too (history predicate; see atomic.go)
+	nb := 3000
+	if c.Thorough() {
+		nb = 60000
+	}
+	atomicVisibility(c, "memory", bk.mem, nb)
+	atomicVisibility(c, "pebblev2", bk.p2, nb/3)
+	atomicVisibility(c, "pebble", bk.p1, nb/3)
 
 	// 2. operation sequences
 	ncases := 1500
